@@ -366,6 +366,170 @@ Section dom.
         * apply HfS. specialize (Hkids r Hr (or_introl eq_refl)). rewrite Forall_forall in Hkids. by apply Hkids.
         * unfold K in HfK. rewrite HK in HfK. apply elem_of_list_singleton in HfK. subst f. lia.
   Qed.
+
+  (* ---- existence of the immediate dominator: the strict dominators of a node form a chain ---- *)
+  Lemma SD_linear n d e : n ∈ dom co → d ∈ SD n → e ∈ SD n → d = e ∨ d ∈ SD e ∨ e ∈ SD d.
+  Proof.
+    intros Hn Hd He. destruct (decide (d = e)) as [|Hne]; [by left|right].
+    pose proof Hd as (Hdd & Hdn & HnA)%SD_elem. pose proof He as (Hed & Hen & HnB)%SD_elem.
+    destruct (decide (e ∈ A d)) as [HeA|HeA]; [|left; apply SD_elem; done].
+    destruct (decide (d ∈ A e)) as [HdA|HdA]; [|right; apply SD_elem; split; [done|]; split; [congruence|done]]. exfalso.
+    assert (d ≠ o) as Hdo. { intros ->. rewrite A_root in HeA. set_solver. }
+    assert (e ≠ o) as Heo. { intros ->. rewrite A_root in HdA. set_solver. }
+    assert (n ∈ A d ∨ n ∈ A e) as [?|?]; [|done|done]. clear Hd He Hdn Hen HnA HnB. revert n Hn. apply reach_all.
+    - left. by apply A_o.
+    - intros x y Hx [HxA|HxA] Hy.
+      + destruct (decide (y = d)) as [->|Hyd]; [by right|left]. by eapply A_closed.
+      + destruct (decide (y = e)) as [->|Hye]; [by left|right]. by eapply A_closed.
+  Qed.
+  Lemma max_by (f : string → nat) (l : list string) : l ≠ [] → ∃ d, d ∈ l ∧ ∀ e, e ∈ l → f e ≤ f d.
+  Proof.
+    induction l as [|x l IH]; [done|]. intros _. destruct l as [|y l].
+    - exists x. split; [by left|]. intros e ->%elem_of_list_singleton. done.
+    - destruct IH as (d & Hd & Hmax); [done|]. destruct (decide (f d ≤ f x)).
+      + exists x. split; [by left|]. intros e [->|He]%elem_of_cons; [done|]. specialize (Hmax e He). lia.
+      + exists d. split; [by right|]. intros e [->|He]%elem_of_cons; [lia|by apply Hmax].
+  Qed.
+  Lemma ID_exists n : n ∈ dom co → n ≠ o → ∃ p, ID n = Some p.
+  Proof.
+    intros Hn Hno.
+    assert (o ∈ SD n) as Ho. { apply SD_elem. split; [done|]. split; [done|]. rewrite A_root. set_solver. }
+    destruct (max_by (λ d, size (SD d)) (elements (SD n))) as (d & Hd%elem_of_elements & Hmax).
+    { intros E. apply elem_of_elements in Ho. rewrite E in Ho. by apply elem_of_nil in Ho. }
+    exists d. apply ID_intro; try done. intros e He.
+    destruct (SD_linear n e d Hn He Hd) as [|[|Hde]]; [by left|by right|]. exfalso.
+    assert (e ∈ dom co) as Hed by (by eapply SD_dom).
+    assert (SD d ∪ {[d]} ⊆ SD e) as Hsub.
+    { intros x [Hx|Hx]%elem_of_union; [|apply elem_of_singleton in Hx; by subst x].
+      destruct (dom_trans x d e Hx Hde Hed) as [Heq|]; [|done]. subst x. exfalso. by eapply dom_antisym. }
+    apply subseteq_size in Hsub. rewrite size_union in Hsub by (pose proof (SD_irrefl d); set_solver). rewrite size_singleton in Hsub.
+    specialize (Hmax e (proj2 (elem_of_elements _ _) He)). simpl in Hmax. lia.
+  Qed.
+  (* a node with a tree child dominates one of its operands *)
+  Lemma child_needs_operand n c : n ∈ dom co → n ≠ o → c ∈ dom co → ID c = Some n → ∃ t1, t1 ∈ fanin co n ∧ n ∈ SD t1.
+  Proof.
+    intros Hn Hno Hc Hid.
+    destruct (decide (set_Exists (λ t1, n ∈ SD t1) (fanin co n))) as [(t1 & Ht1 & Hd1)|Hnone]; [eauto|]. exfalso.
+    destruct (ID_Some c n Hc Hid) as [Hnc _]. pose proof Hnc as (_ & Hnec & HcA)%SD_elem.
+    assert (c ∈ A n ∨ c = n) as [?| ->]; [|done|done].
+    clear Hid Hnc Hnec HcA. revert c Hc. apply reach_all.
+    - left. by apply A_o.
+    - intros x y Hx [HxA| ->] Hy.
+      + destruct (decide (y = n)) as [|Hyn]; [by right|left]. by eapply A_closed.
+      + left. apply usucc_elem in Hy as [Hy|[Hy _]].
+        * destruct (C1 n y Hn Hy) as [Hyd Hr]. destruct (decide (y ∈ A n)) as [|Hna]; [done|]. exfalso. apply Hnone.
+          exists y. split; [done|]. apply SD_elem. split; [done|]. split; [intros ->; lia|done].
+        * apply elem_of_fanout in Hy as (i & Hi & Hni). apply fanout_not_dom; [by apply elem_of_dom|].
+          unfold fanin. by rewrite Hi.
+  Qed.
+  (* a node with two tree children (at most two operands): every operand is a tree child, and there is one *)
+  Lemma two_children_operands n : n ∈ dom co → n ≠ o → size (fanin co n) ≤ 2 → 1 < length (K n) →
+    (∃ t, t ∈ fanin co n) ∧ ∀ t, t ∈ fanin co n → ID t = Some n.
+  Proof.
+    intros Hn Hno Hsz Hl. destruct (kids_two n Hl) as (c & c' & Hne & Hc & Hc').
+    apply kids_elem in Hc as (_ & Hcd & _ & Hidc). apply kids_elem in Hc' as (_ & Hcd' & _ & Hidc'). split.
+    - destruct (child_needs_operand n c Hn Hno Hcd Hidc) as (t1 & ? & _). eauto.
+    - intros t Ht. apply operand_child; try done. destruct (decide (n ∈ SD t)) as [|Hnd]; [done|]. exfalso.
+      apply Hne. by apply (one_child n t c c').
+  Qed.
+
+  (* ---- the traversal reaches every node of the cone ---- *)
+  Section traversal.
+    Context (gs : list (string * gset string)).
+    Hypothesis Hgrow : Forall (grow_ok o sd kids) gs.
+    Hypothesis Hfront : frontier_ok kids gs.
+    Hypothesis Hhead : ∃ S0, (o, S0) ∈ gs.
+
+    Lemma root_lookup r : r ∈ gs.*1 → ∃ S, (r, S) ∈ gs.
+    Proof. intros ([r' S] & -> & Hin)%elem_of_list_fmap. eauto. Qed.
+    Lemma covered_aux : ∀ k n, size (SD n) = k → n ∈ dom co → ∃ r S, (r, S) ∈ gs ∧ n ∈ S.
+    Proof.
+      intros k. induction (lt_wf k) as [k _ IH]. intros n Hk Hn.
+      destruct (decide (n = o)) as [->|Hno].
+      { destruct Hhead as [S0 H0]. exists o, S0. split; [done|]. rewrite Forall_forall in Hgrow. by destruct (Hgrow _ H0) as (? & _). }
+      destruct (ID_exists n Hn Hno) as [p Hid]. destruct (ID_Some n p Hn Hid) as [Hp _]. pose proof (SD_dom _ _ Hp) as Hpd.
+      pose proof (child_deeper n p Hn Hid) as Hdeep.
+      destruct (IH (size (SD p)) ltac:(lia) p eq_refl Hpd) as (r & S & Hin & HpS).
+      assert (n ∈ K p) as HnK by (apply kids_elem; done).
+      pose proof Hgrow as Hg. rewrite Forall_forall in Hg. destruct (Hg _ Hin) as (_ & _ & Hkids & _). simpl in Hkids.
+      destruct (decide (p = r)) as [->|Hpr].
+      { exists r, S. split; [done|]. specialize (Hkids r HpS (or_introl eq_refl)). rewrite Forall_forall in Hkids. by apply Hkids. }
+      destruct (decide (length (K p) = 1)) as [Hl1|Hl1].
+      { exists r, S. split; [done|]. assert (absorbs kids p) as Habs by (unfold absorbs, sg_split_above, sg_absorb_at; fold (K p); lia).
+        specialize (Hkids p HpS (or_intror Habs)). rewrite Forall_forall in Hkids. by apply Hkids. }
+      (* p has at least two children: it is the root of its own grown set *)
+      destruct Hfront as [_ Hfr]. rewrite Forall_forall in Hfr. specialize (Hfr _ Hin p HpS). simpl in Hfr.
+      assert (1 < length (K p)) as Hl2. { destruct (K p) as [|? [|? ?]]; simpl in *; [by apply elem_of_nil in HnK|done|lia]. }
+      destruct Hfr as [|[Hnot|Hroot]]; [done|unfold sg_split_above in Hnot; fold (K p) in Hnot; lia|].
+      destruct (root_lookup p Hroot) as [S' Hin']. exists p, S'. split; [done|].
+      destruct (Hg _ Hin') as (Hr' & _ & Hkids' & _). simpl in *. specialize (Hkids' p Hr' (or_introl eq_refl)).
+      rewrite Forall_forall in Hkids'. by apply Hkids'.
+    Qed.
+    Lemma covered n : n ∈ dom co → ∃ r S, (r, S) ∈ gs ∧ n ∈ S.
+    Proof. intros Hn. by eapply covered_aux. Qed.
+
+    (* a node with an operand lies, together with an operand, in some grown set *)
+    Lemma gate_covered n f : n ∈ dom co → size (fanin co n) ≤ 2 → f ∈ fanin co n →
+      ∃ r S f', (r, S) ∈ gs ∧ n ∈ S ∧ f' ∈ fanin co n ∧ f' ∈ S.
+    Proof.
+      intros Hn Hsz Hf. pose proof Hgrow as Hg. rewrite Forall_forall in Hg.
+      destruct (covered n Hn) as (r & S & Hin & HnS). destruct (Hg _ Hin) as (Hr & Hroot & Hkids & Hroute). simpl in *.
+      destruct (C1 n f Hn Hf) as [Hfd Hrk].
+      destruct (decide (n = o)) as [->|Hno].
+      { (* the output: take the grown set rooted at it *)
+        destruct Hhead as [S0 H0]. destruct (Hg _ H0) as (Hr0 & _ & Hkids0 & _). simpl in *.
+        exists o, S0, f. split; [done|]. split; [done|]. split; [done|].
+        specialize (Hkids0 o Hr0 (or_introl eq_refl)). rewrite Forall_forall in Hkids0. apply Hkids0.
+        apply kids_elem. split; [done|]. split; [done|]. split; [intros ->; lia|]. by apply root_operand_child. }
+      assert (f ≠ o) as Hfo. { intros ->. pose proof (rank_le_o n Hn). lia. }
+      destruct (decide (1 < length (K n))) as [Hl2|Hl2].
+      { (* two children: n is the root of its own set or of the current one; all operands are children *)
+        destruct (two_children_operands n Hn Hno Hsz Hl2) as [_ Hall].
+        assert (∃ S', (n, S') ∈ gs) as [S' Hin'].
+        { destruct (decide (n = r)) as [->|Hnr]; [eauto|]. destruct Hfront as [_ Hfr]. rewrite Forall_forall in Hfr.
+          destruct (Hfr _ Hin n HnS) as [|[Hnot|Hrt]]; [done|unfold sg_split_above in Hnot; fold (K n) in Hnot; lia|]. by apply root_lookup. }
+        destruct (Hg _ Hin') as (Hr' & _ & Hkids' & _). simpl in *.
+        exists n, S', f. split; [done|]. split; [done|]. split; [done|].
+        specialize (Hkids' n Hr' (or_introl eq_refl)). rewrite Forall_forall in Hkids'. apply Hkids'.
+        apply kids_elem. split; [done|]. split; [done|]. split; [done|]. by apply Hall. }
+      exists r, S, f. split; [done|]. split; [done|]. split; [done|].
+      assert (n ≠ r) as Hnr. { intros ->. destruct Hroot as [|Hl]; [done|]. unfold sg_split_above in Hl. fold (K r) in Hl. lia. }
+      destruct (Hroute n HnS) as [|[_ (q & HqS & Hq & Hqr)]]; [done|].
+      destruct (decide (n ∈ SD f)) as [Hdom|Hndom].
+      - (* f is the single child of n, absorbed *)
+        assert (f ∈ K n) as HfK by (apply kids_elem; split; [done|]; split; [done|]; split; [done|]; by apply operand_child).
+        assert (length (K n) = 1) as Hl1. { destruct (K n) as [|? [|? ?]]; simpl in *; [by apply elem_of_nil in HfK|done|lia]. }
+        assert (absorbs kids n) as Habs by (unfold absorbs, sg_split_above, sg_absorb_at; fold (K n); lia).
+        specialize (Hkids n HnS (or_intror Habs)). rewrite Forall_forall in Hkids. by apply Hkids.
+      - (* f is a sibling of n below q: q is the root *)
+        pose proof (operand_sibling n f Hn Hno Hf Hndom) as Hsib.
+        pose proof Hq as (Hqd & _ & _ & Hidn)%kids_elem.
+        assert (f ∈ K q) as HfK. { apply kids_elem. split; [done|]. split; [done|]. split; [done|]. by rewrite Hsib. }
+        destruct Hqr as [->|HK].
+        + specialize (Hkids r Hr (or_introl eq_refl)). rewrite Forall_forall in Hkids. by apply Hkids.
+        + unfold K in HfK. rewrite HK in HfK. apply elem_of_list_singleton in HfK. subst f. lia.
+    Qed.
+
+    (* the root of one grown set is not driven inside another one *)
+    Lemma root_input_elsewhere r S r' S' f : (r, S) ∈ gs → (r', S') ∈ gs → r ≠ r' → r ∈ S' →
+      size (fanin co r) ≤ 2 → f ∈ fanin co r → f ∉ S'.
+    Proof.
+      intros Hin Hin' Hne HrS' Hsz Hf HfS'. pose proof Hgrow as Hg. rewrite Forall_forall in Hg.
+      destruct (Hg _ Hin) as (_ & Hroot & _ & _). destruct (Hg _ Hin') as (Hr' & _ & _ & Hroute'). simpl in *.
+      destruct (Hroute' r HrS') as [|[Hdepth (q & _ & Hq & _)]]; [done|].
+      pose proof Hq as (_ & Hrd & Hro & _)%kids_elem.
+      destruct Hroot as [|Hl]; [done|]. unfold sg_split_above in Hl. fold (K r) in Hl.
+      destruct (two_children_operands r Hrd Hro Hsz Hl) as [_ Hall]. specialize (Hall f Hf).
+      destruct (C1 r f Hrd Hf) as [Hfd _].
+      assert (r' ∈ dom co) as Hr'd.
+      { destruct (decide (r' = o)) as [->|]; [done|]. destruct (Hg _ Hin') as (_ & [|Hl'] & _); [done|]. simpl in Hl'.
+        unfold sg_split_above in Hl'. fold (K r') in Hl'. destruct (kids_two r' Hl') as (c & _ & _ & Hc & _). by apply kids_elem in Hc as (? & _). }
+      destruct (Hroute' f HfS') as [->|[_ (q' & _ & Hq' & Hq'r)]].
+      - pose proof (child_deeper r' r Hr'd Hall). rewrite (sd_of r' Hr'd), (sd_of r Hrd) in Hdepth. lia.
+      - apply kids_elem in Hq' as (_ & _ & _ & Hidq). assert (q' = r) as -> by congruence.
+        destruct Hq'r as [|HK]; [done|]. fold (K r) in HK. rewrite HK in Hl. simpl in Hl. lia.
+    Qed.
+  End traversal.
 End dom.
 
 (* ================================================================ instantiation: the cone of an output of L *)
@@ -441,7 +605,7 @@ Section fanin_eq.
   Lemma cone_supergates_fanin_eq o l sg : o ∈ dom L → cone_supergates L o = Some l → sg ∈ l →
     ∀ n, n ∈ gates (c_g sg) → fanin (c_g sg) n = fanin L n.
   Proof.
-    intros HoL. unfold cone_supergates. case_bool_decide as Hcert; [|done]. destruct Hcert as (Hup & Hav & Hgrow).
+    intros HoL. unfold cone_supergates. case_bool_decide as Hcert; [|done]. destruct Hcert as (Hup & Hav & Hgrow & _).
     intros Heq Hin. apply (inj Some) in Heq. subst l. apply elem_of_list_fmap in Hin as ([r S] & -> & Hgs). simpl.
     rewrite Forall_forall in Hgrow. specialize (Hgrow _ Hgs). clear Hgs.
     intros n [Hnd Hni]%elem_of_difference. apply elem_of_dom in Hnd as [i Hi].
